@@ -161,7 +161,10 @@ _LC = dict(transports=['t1', 't2'], ns_h=['/', '/a'],
            auths=['absent', 'auth:ok', 'auth:false', 'auth:ref0', 'auth:ref1',
                   'auth:ref2', 'auth:ref3', 'v1', 'absent:ref2',
                   'absent:false'],
-           lost_reasons=['transport close', 'ping timeout'],
+           # (every reason engine.io reports for the end of a transport)
+           lost_reasons=['transport close', 'ping timeout',
+                         'client disconnect', 'server disconnect',
+                         'transport error'],
            alpha='lifecycle')
 for _ac in (False, True):
     for _hk in ('fn', 'class'):
@@ -170,7 +173,9 @@ for _ac in (False, True):
                 = dict(_LC, always_connect=_ac, hkind=_hk, ns_opt=_no)
 CONFIGS['lifecycle_quick'] = dict(
     _LC, transports=['t1'], max_sid=2, ns_opt=['/', '/b'],
-    ns_all=['/', '/a', '/b', '/x'], lost_reasons=['transport close'])
+    ns_all=['/', '/a', '/b', '/x'],
+    lost_reasons=['transport close', 'client disconnect',
+                  'server disconnect'])
 CONFIGS['lifecycle_quick_ac'] = dict(CONFIGS['lifecycle_quick'],
                                      always_connect=True, hkind='class')
 
